@@ -89,7 +89,7 @@ class SpartanProtocol(BaseGopherProtocol):
         return mimetype
 
     def renderobjinfo(self, entry):
-        if re.match("(/|)URL:", entry.getselector()):
+        if re.match("(/|)URL:(.+)$", entry.getselector()):
             # It's a plain URL.  Make it that.
             url = re.match("(/|)URL:(.+)$", entry.getselector()).group(2)
         elif (not entry.gethost()) and (not entry.getport()):
